@@ -128,7 +128,7 @@ def build_values(dt, n, vals):
         else:
             a = (perm - n // 2) * 0.5 + 0.25 + 1j * (perm * 0.25 - 1.0)
         if dt.itemsize == 1 and n > 120:
-            raise ValueError('too many distinct values for a 1-byte type')
+            a = (perm % 120) + 1 if k == 'u' else (perm % 240) - 120     # cannot be all distinct in one byte
         return a.astype(dt)
     raise ValueError(mode)
 
